@@ -629,6 +629,10 @@ def run(tier, procs=None, only=None):
     )
 
 
+# every real-library oracle of this property (each returns (reproduced, detail)); used to confirm structural facts that carry no replay of their own
+ALL_REPLAYS = [lambda c: _replay_sampling(1, None, False)(c), lambda c: _replay_sampling(0, (3, 3, 3), False)(c), lambda c: _replay_sampling(3, (4, 3, 5), True)(c), lambda c: _replay_sampling(1, None, False)({'__twice__': True}), replay_batch_options]
+
+
 def replay(data):
     key = data.get("key", "")
     cex = data.get("cex") or {}
